@@ -70,8 +70,11 @@ NoPlugin == [present |-> FALSE, ver |-> 0, files |-> {}]
 
 (* a source: [ver, meta : "ok"|"invalid"|"misnamed", shape : "file"|"dir", cand : "exec"|"nonexec"|"two"|"none",
               extras : Seq of extra file atoms, subdir : BOOLEAN, overwrite : BOOLEAN] *)
+CandLike == {"cand-before", "cand-after"}      \* extra NON-executable files whose names have the plugin file-name format
 Usable(src) == /\ src.cand \in {"exec", "nonexec"}        \* exactly one candidate (a non-executable one in a directory is made executable)
                /\ (src.shape = "file" => src.cand = "exec")
+                  \* a non-executable candidate is taken only if it is the only file of that name format; an executable one wins over such files
+               /\ ((src.cand = "nonexec" /\ src.shape = "dir") => Range(src.extras) \cap CandLike = {})
                /\ src.meta = "ok"
 Replaces(versions, cur, src) ==
   \/ ~cur.present
